@@ -81,13 +81,17 @@ func c08Run(rc *sim.RunCtx) {
 	for i := range specs {
 		specs[i] = sim.DrawWorldSpec(t, c08WIDs[i], 4, 3, 2, []sim.FaultKind{sim.FGoErr, sim.FUgoErr, sim.FPanicStr}, 3, 16)
 	}
-	// deterministic pool for the solo runs too (always fresh), so that recycling is the concurrent run's variable
+	// The solo (reference) runs use a deterministic pool too (always fresh), so that recycling is the concurrent run's
+	// variable. In half of the runs they come AFTER the concurrent phase: whatever ugo initialises lazily or caches
+	// process-wide is then first touched by several VMs at once.
 	solo := make([]c08Result, n)
-	{
+	runSolo := func() bool {
 		pool := &sim.SimPool{T: t, Always: 1}
 		restore := pool.Install()
+		defer restore()
 		sc := &sim.StepCounter{Cap: 60000}
 		restoreHook := sc.Install()
+		defer restoreHook()
 		capped := false
 		for i := range specs {
 			sc.Steps = 0
@@ -97,20 +101,21 @@ func c08Run(rc *sim.RunCtx) {
 			b := c08RunOne(bc, sim.NewWorld(specs[i], nil), c08Args(i))
 			capped = capped || sc.Capped
 			if !a.out.Equal(b.out) || a.trace != b.trace {
-				restoreHook()
-				restore()
 				rc.Discard = "workload-not-self-deterministic"
 				rc.Logf("solo runs differ: %s vs %s", a.out, b.out)
-				return
+				return false
 			}
 			solo[i] = a
 		}
-		restoreHook()
-		restore()
 		if capped {
 			rc.Discard = "workload-too-long"
-			return
+			return false
 		}
+		return true
+	}
+	concurrentFirst := t.Bool(1, 2)
+	if !concurrentFirst && !runSolo() {
+		return
 	}
 	fpBefore := sim.Fingerprint(bc)
 
@@ -168,6 +173,15 @@ func c08Run(rc *sim.RunCtx) {
 		return
 	}
 	rc.Steps = s.TotalLoops()
+	if concurrentFirst {
+		restore() // the solo runs install their own pool
+		ok := runSolo()
+		restore = pool.Install()
+		if !ok {
+			return
+		}
+		rc.Probe("concurrent-phase-before-solo-runs")
+	}
 	if s.Degraded() {
 		rc.Degraded = true
 		rc.Probe("degraded-schedule(un-modelled blocking met)")
